@@ -26,7 +26,8 @@ def _cmp_domain(e):
 
 
 def _tokens(s):
-    return set(re.findall(r'[A-Za-z_][A-Za-z_0-9]*', s))
+    # identifiers that stand for variables: member names (after -> or .) are not variables
+    return set(re.findall(r'[A-Za-z_][A-Za-z_0-9]*', re.sub(r'(->|\.)\s*[A-Za-z_][A-Za-z_0-9]*', '', s)))
 
 
 class Facts:
@@ -515,6 +516,39 @@ def rule_growth(prog, rep, rid='G1'):
                     rep.instance(rid)
                     bad = None
                     base = canon(children(c0)[0]) if c0.get('kind') == 'MemberExpr' else 'vector'
+                    se = strip(e)
+                    helper = None
+                    if se.get('kind') == 'CallExpr':
+                        cands = [g for g in prog.callees(f.unit, se) if getattr(g, 'body', None) is not None]
+                        if len(cands) == 1 and len(children(se)) == 2:
+                            helper = cands[0]
+                    if helper is not None:
+                        # the growth policy lives in a helper: tabulated over capacity x initial size x option bits
+                        from .interp import run_function
+                        pn = helper.params[0].get('name')
+                        for mx in range(0, 65):
+                            for ini in (1, 2, 8):
+                                for opt in range(0, 16):
+                                    v = run_function(prog, helper, [None], {}, extra_env={
+                                        pn + '->max': mx, pn + '->initnum': ini, pn + '->num': mx, pn + '->options': opt})
+                                    if v is None:
+                                        bad = ('?', mx, ini)
+                                    elif v <= mx:
+                                        bad = (v, mx, ini)
+                                    if bad:
+                                        break
+                                if bad:
+                                    break
+                            if bad:
+                                break
+                        rep.oblige(rid, bad is None, {'function': f.name, 'new_capacity': canon(e)[:50], 'tabulated_helper': helper.name})
+                        if bad and bad[0] != '?':
+                            rep.violation(rid, f, x.get('_line'), 'grow:%s' % helper.name,
+                                          'the growth helper %s() returns %s for capacity %d: the vector does not grow, the element is then '
+                                          'stored beyond the buffer' % (helper.name, bad[0], bad[1]))
+                        elif bad:
+                            rep.broken_if(True, 'growth helper %s cannot be tabulated' % helper.name)
+                        continue
                     for mx in range(0, 65):
                         for ini in (1, 2, 8):
                             v = _eval_member(e, {base + '->max': mx, base + '->initnum': ini, base + '->num': mx})
